@@ -950,7 +950,17 @@ func appendEvidence(chk *checks.Check, tier string, tot *WorkerOut, distinct, ne
 	if cov == nil {
 		return fmt.Errorf("evidence file has no coverage object")
 	}
-	num := func(m map[string]interface{}, k string) float64 { f, _ := m[k].(float64); return f }
+	num := func(m map[string]interface{}, k string) float64 {
+		switch v := m[k].(type) {
+		case float64:
+			return v
+		case int64:
+			return float64(v)
+		case int:
+			return float64(v)
+		}
+		return 0
+	}
 	addInt := func(m map[string]interface{}, k string, v int64) { m[k] = int64(num(m, k)) + v }
 	addInt(cov, "evaluations", tot.Runs)
 	addInt(cov, "simulated_runs", tot.Runs)
